@@ -3,6 +3,7 @@ CONSTANTS
   Record = FALSE
   Scripts <- Scripts4
   FaultChoices <- Faults4
+  RouteChoices <- DistinctRoutes
 
 INVARIANT EachOnce
 INVARIANT ReturnsAfterAll
